@@ -233,6 +233,7 @@ class Script(object):
                 import errno
                 self.link.send_error = BrokenPipeError(errno.EPIPE,
                                                        'Broken pipe')
+                self.link.peer_reset = True
 
 
 class Server(Script):
